@@ -495,6 +495,7 @@ func c04(run *ev.Run, tier string) {
 		})
 	}
 	c04Spellings(run)
+	c04DirSpellings(run)
 	c04AcceptedBytes(run)
 	if bin := nfpmBin(run); bin != "" {
 		c04CLIOverExisting(run, bin)
@@ -671,6 +672,51 @@ func c04Spellings(run *ev.Run) {
 				p := dec.Decode(f, res.Bytes, false)
 				for _, x := range structural(f, res.Bytes, p, false, false) {
 					run.Violate("C04/"+f+"/"+x.kind, map[string]any{"destinations": pr, "types": types, "detail": ev.Short(x.detail, 400)})
+				}
+			}
+		}
+	}
+}
+
+// c04DirSpellings: a declared directory whose destination is spelled with a
+// leading and trailing slash and a non-canonical interior (as left behind by an
+// empty variable inside the path), together with an entry below it: the
+// directory is one archive member, not two.
+func c04DirSpellings(run *ev.Run) {
+	dir := newWorkDir("c04-dirspell")
+	defer removeWorkDir(dir)
+	a := filepath.Join(dir, "a.txt")
+	_ = os.WriteFile(a, []byte("a\n"), 0o644)
+	for _, dst := range []string{"/opt//app/", "/opt/./app/", "/opt/x/../app/", "/opt/app//", "opt/app/", "./opt/app/", "/opt///app/"} {
+		for _, below := range []string{"/opt/app/bin/tool", "/opt/app/tool"} {
+			for _, order := range []int{0, 1} {
+				s := &gen.Spec{Name: "dirspell", Arch: "amd64", Version: "1.0.0", Maintainer: "S <s@example.com>", Description: "d", MTime: 1500000000}
+				s.RPM.BuildHost = "verif-host"
+				d := &gen.Content{Dst: dst, Type: "dir", FI: &gen.FI{Mode: 0o750}}
+				fl := &gen.Content{Dst: below, Src: a}
+				s.Contents = []*gen.Content{d, fl}
+				if order == 1 {
+					s.Contents = []*gen.Content{fl, d}
+				}
+				for _, f := range formats {
+					run.Case(fmt.Sprintf("dir-spelling|%s|%s|%d|%s", dst, below, order, f), true)
+					res := buildYAML(s.YAML(), f)
+					if res.Err != nil || res.Panic != "" {
+						continue // rejected: fine
+					}
+					p := dec.Decode(f, res.Bytes, false)
+					for _, x := range structural(f, res.Bytes, p, false, false) {
+						run.Violate("C04/"+f+"/"+x.kind, map[string]any{"directory": dst, "entry_below": below, "detail": ev.Short(x.detail, 400)})
+					}
+					n := 0
+					for _, e := range p.Entries {
+						if e.Path == "/opt/app" {
+							n++
+						}
+					}
+					if n > 1 {
+						run.Violate("C04/"+f+"/duplicate-member/declared-directory", map[string]any{"directory": dst, "entry_below": below, "members_for_/opt/app": n})
+					}
 				}
 			}
 		}
